@@ -20,7 +20,9 @@ theorem slow_nil (c : Cfg) (a : A) (n : Nat) (hro : c.ro = false) (hf : a.free =
   unfold A.slow
   cases hk : c.kind <;> simp [hro, hf, takeFirst]
 
-/-- every call of a history changes `discarded` only by adding something (mod 2^32) -/
+/-- every call of a history changes `discarded` only by adding something (mod 2^32); `clear` (now a call of the
+    histories) resets the counter to 0 — the exception the property names — which this wrapping formulation also
+    covers (`C17.clear_in_history` gives the exact value: the cleared state represents `A.fresh`, `discarded = 0`) -/
 theorem monotone (o : Opts) (g : Guards o) (fuel : Nat) (hfuel : o.cap + 2 ≤ fuel) (x : CSess)
     (hr : Reachable o fuel x) (op : COp) (hop : op.ok) :
     ∃ x' d, cstep o.cfg fuel x op = .ok x' ∧ x'.st.discarded = (x.st.discarded + d) % TWO32 := by
